@@ -71,6 +71,7 @@ type xextern struct {
 	args     []string // argument types
 	res      string   // result type ("" = only an error)
 	fallible bool     // can panic / returns an error ⇒ Option
+	noargs   bool     // the call's arguments are not evaluated (store reads keyed by ctx/denom: the result is an input)
 }
 
 type xspec struct {
@@ -403,6 +404,24 @@ func (t *xtr) externByKey(k string) *xextern {
 	return nil
 }
 
+func (t *xtr) externArgs(x *xextern, e *ast.CallExpr, env *xenv) []xval {
+	if x.noargs {
+		return nil
+	}
+	return t.exprs(e.Args, env)
+}
+
+// peekTy: the type of a variable / bound expression without emitting anything ("" if unknown)
+func (t *xtr) peekTy(e ast.Expr, env *xenv) string {
+	if b, ok := t.binds[t.norm(e)]; ok {
+		return b.ty
+	}
+	if v, ok := env.vars[identName(e)]; ok {
+		return v.ty
+	}
+	return ""
+}
+
 func (t *xtr) callExtern(x *xextern, args []xval, at ast.Node) xval {
 	if len(args) != len(x.args) {
 		t.fail("extern %s: %d arguments, expected %d in %s", x.key, len(args), len(x.args), show(at))
@@ -428,7 +447,12 @@ func (t *xtr) callee(fun ast.Expr) *xdone {
 		return xregistry[t.spec.dir+":"+f.Name]
 	case *ast.SelectorExpr:
 		if x, ok := f.X.(*ast.Ident); ok {
-			if _, isParam := t.pnames[x.Name]; isParam {
+			if d, isParam := t.pnames[x.Name]; isParam {
+				if d == "$0" { // a method of the same receiver type
+					if i := strings.Index(t.spec.fn, "."); i > 0 {
+						return xregistry[t.spec.dir+":"+t.spec.fn[:i+1]+f.Sel.Name]
+					}
+				}
 				return nil
 			}
 			if q := importedPkg(t.p, x.Name); q != nil {
@@ -440,7 +464,22 @@ func (t *xtr) callee(fun ast.Expr) *xdone {
 	return nil
 }
 
-func (t *xtr) callDone(d *xdone, args []xval, at ast.Node) []xval {
+func (t *xtr) callDone(d *xdone, argExprs []ast.Expr, env *xenv, at ast.Node) []xval {
+	// only the arguments the callee's specification binds positionally are evaluated (left to right);
+	// the others (ctx, denoms, …) do not enter the arithmetic
+	used := map[int]bool{}
+	for _, pr := range d.spec.params {
+		var i int
+		if n, _ := fmt.Sscanf(pr.key, "$%d", &i); n == 1 && !strings.ContainsAny(pr.key, ".(") {
+			used[i] = true
+		}
+	}
+	args := make([]xval, len(argExprs))
+	for i, a := range argExprs {
+		if used[i+1] {
+			args[i] = t.expr(a, env)
+		}
+	}
 	parts := []string{"OsmoVerif.Gen." + d.spec.mod + "." + d.spec.lean}
 	for _, x := range d.spec.externs {
 		mine := t.externByKey(x.key)
@@ -451,7 +490,14 @@ func (t *xtr) callDone(d *xdone, args []xval, at ast.Node) []xval {
 	}
 	for _, pr := range d.spec.params {
 		if !strings.HasPrefix(pr.key, "$") || strings.ContainsAny(pr.key, ".(") {
-			t.fail("callee %s has a non-positional parameter %s", d.spec.fn, pr.key)
+			// a keeper read such as $0.GetParams($1).X: the caller must read the very same thing
+			// (same receiver, ctx in the same position) and bind it itself
+			mine, ok := t.binds[pr.key]
+			if !ok || mine.ty != pr.ty || !strings.HasPrefix(pr.key, "$0.") {
+				t.fail("callee %s has a non-positional parameter %s which this function does not bind identically", d.spec.fn, pr.key)
+			}
+			parts = append(parts, mine.name)
+			continue
 		}
 		var i int
 		fmt.Sscanf(pr.key, "$%d", &i)
@@ -666,11 +712,16 @@ func (t *xtr) call(e *ast.CallExpr, env *xenv) []xval {
 	one := func(v xval) []xval { return []xval{v} }
 	// (1) extern named by its normalised callee (package function or method on a parameter)
 	if x := t.externByKey(t.norm(e.Fun)); x != nil {
-		return one(t.callExtern(x, t.exprs(e.Args, env), e))
+		return one(t.callExtern(x, t.externArgs(x, e, env), e))
+	}
+	if e.Ellipsis != token.NoPos {
+		if se, ok := e.Fun.(*ast.SelectorExpr); !ok || len(e.Args) != 1 || t.externByKey(t.peekTy(se.X, env)+"."+se.Sel.Name) == nil {
+			t.fail("variadic spread outside an extern method call: %s", show(e))
+		}
 	}
 	// (2) another translated function
 	if d := t.callee(e.Fun); d != nil {
-		return t.callDone(d, t.exprs(e.Args, env), e)
+		return t.callDone(d, e.Args, env, e)
 	}
 	switch f := e.Fun.(type) {
 	case *ast.Ident:
@@ -689,7 +740,7 @@ func (t *xtr) call(e *ast.CallExpr, env *xenv) []xval {
 			_, isVar := env.vars[x.Name]
 			_, isParam := t.pnames[x.Name]
 			_, isStruct := env.structs[x.Name]
-			if !isVar && !isParam && !isStruct {
+			if !isVar && !isParam && !isStruct && isImportName(t.p, x.Name) {
 				return one(t.pkgCall(x.Name, f.Sel.Name, e, env))
 			}
 		}
@@ -712,6 +763,25 @@ func (t *xtr) call(e *ast.CallExpr, env *xenv) []xval {
 	}
 	t.fail("unsupported call %s", show(e))
 	return nil
+}
+
+func isImportName(p *pkgInfo, alias string) bool {
+	if _, isConst := p.consts[alias]; isConst {
+		return false
+	}
+	for _, f := range p.files {
+		for _, im := range f.Imports {
+			path := strings.Trim(im.Path.Value, "\"")
+			name := path[strings.LastIndex(path, "/")+1:]
+			if im.Name != nil {
+				name = im.Name.Name
+			}
+			if name == alias {
+				return true
+			}
+		}
+	}
+	return false
 }
 
 // constructors and helpers of osmomath / sdkmath / sdk / time
@@ -916,14 +986,14 @@ func (t *xtr) seq(list []ast.Stmt, env *xenv, ind string, depth int) string {
 				if !x.fallible {
 					t.fail("extern %s is not fallible but is assigned with err", x.key)
 				}
-				v := t.callExtern(x, t.exprs(ce.Args, env), ce)
+				v := t.callExtern(x, t.externArgs(x, ce, env), ce)
 				if x.res != "" {
 					vals = []xval{v}
 				} else {
 					vals = []xval{{lean: "()", ty: "Unit"}}
 				}
 			} else if d := t.callee(ce.Fun); d != nil && d.hasErr {
-				vals = t.callDone(d, t.exprs(ce.Args, env), ce)
+				vals = t.callDone(d, ce.Args, env, ce)
 			} else {
 				t.fail("unsupported multi-value assignment %s", show(s))
 			}
@@ -937,7 +1007,7 @@ func (t *xtr) seq(list []ast.Stmt, env *xenv, ind string, depth int) string {
 				t.assign(identName(l), vals[i], env, def, depth > 0)
 			}
 			env.errPending = true
-			return t.flush(ind) + t.seq(rest, env, ind, depth)
+			return t.seq(rest, env, ind, depth) // pending binds are flushed by the next if / return
 		}
 		if len(s.Lhs) != len(s.Rhs) {
 			t.fail("unsupported assignment %s", show(s))
@@ -988,7 +1058,7 @@ func (t *xtr) seq(list []ast.Stmt, env *xenv, ind string, depth int) string {
 				t.fail("unsupported assignment target %s", show(l))
 			}
 		}
-		return t.flush(ind) + t.seq(rest, env, ind, depth)
+		return t.seq(rest, env, ind, depth) // pending binds are flushed by the next if / return
 	case *ast.ExprStmt:
 		if ce, ok := s.X.(*ast.CallExpr); ok && identName(ce.Fun) == "panic" {
 			return t.flush(ind) + ind + "none\n"
@@ -1236,6 +1306,10 @@ func (p *pkgInfo) opListX(fn string, also ...string) []string {
 	for _, a := range also {
 		alsoNames[a] = true
 	}
+	// sdk Int / big.Int arithmetic that `arithNames` (the list the CL model interprets) does not carry
+	for _, a := range []string{"MulRaw", "QuoRaw", "AddRaw", "SubRaw", "Mod", "ModRaw", "Power", "Int64", "Uint64", "Rem", "Cmp"} {
+		alsoNames[a] = true
+	}
 	fd, ok := p.funcs[fn]
 	if !ok {
 		fail("no func %s in %s", fn, p.dir)
@@ -1308,11 +1382,27 @@ func (p *pkgInfo) opListX(fn string, also ...string) []string {
 			return operand(e.X)
 		case *ast.StarExpr:
 			return operand(e.X)
+		case *ast.IndexExpr:
+			return operand(e.X) + "[" + operand(e.Index) + "]"
 		case *ast.CallExpr:
-			// nullary constructors / getters read as operands: osmomath.OneDec(), x.BigIntMut()
-			if len(e.Args) == 0 {
+			// nullary constructors / getters and constructors of literals read as operands:
+			// osmomath.OneDec(), x.BigIntMut(), osmomath.NewInt(100), uint64(0)
+			lits := true
+			var as []string
+			for _, a := range e.Args {
+				bl, ok := a.(*ast.BasicLit)
+				if !ok {
+					lits = false
+					break
+				}
+				as = append(as, bl.Value)
+			}
+			if lits {
 				if se, ok := e.Fun.(*ast.SelectorExpr); ok && !arithNames[se.Sel.Name] {
-					return operand(se.X) + "." + se.Sel.Name + "()"
+					return operand(se.X) + "." + se.Sel.Name + "(" + strings.Join(as, ",") + ")"
+				}
+				if id, ok := e.Fun.(*ast.Ident); ok && len(as) > 0 {
+					return id.Name + "(" + strings.Join(as, ",") + ")"
 				}
 			}
 		}
@@ -1347,6 +1437,10 @@ func (p *pkgInfo) opListX(fn string, also ...string) []string {
 				}
 				if cn != "" {
 					var ops []string
+					if se, ok := x.Fun.(*ast.SelectorExpr); ok && alsoNames[se.Sel.Name] && !isImportName(p, identName(se.X)) {
+						walk(se.X) // a method call: the receiver is the first operand
+						ops = append(ops, operand(se.X))
+					}
 					for _, a := range x.Args {
 						walk(a)
 						ops = append(ops, operand(a))
@@ -1443,7 +1537,7 @@ func pinOps(mod, dir, fn string, also ...string) {
 	f.lists = append(f.lists, struct {
 		name string
 		ops  []string
-	}{"ops_" + strings.ReplaceAll(fn, ".", "_"), p.opListX(fn, also...)})
+	}{"opsx_" + strings.ReplaceAll(fn, ".", "_"), p.opListX(fn, also...)})
 }
 
 func writeFnFiles(outDir string) {
@@ -1459,7 +1553,7 @@ func writeFnFiles(outDir string) {
 			"-- Straight-line Go arithmetic translated to Lean over the primitives of Model/Num.lean + Model/NumGen.lean\n"+
 			"-- (DESIGN §2.1, tie T1): temporaries are named by position, every fallible operation is sequenced with\n"+
 			"-- Option.bind in Go's evaluation order; `ops_*` are ordered operator lists (operands numbered by declaration order).\n"+
-			"import OsmoVerif.Model.NumGen\n\nnamespace OsmoVerif.Gen.%s\nopen OsmoVerif.Num\n\n", m)
+			"import OsmoVerif.Model.NumGen\n\nset_option linter.unusedVariables false\n\nnamespace OsmoVerif.Gen.%s\nopen OsmoVerif.Num\n\n", m)
 		for _, d := range f.defs {
 			l.sb.WriteString(d.text + "\n")
 		}
